@@ -194,6 +194,16 @@ def verdict(fn):
         return "Exc:" + type(e).__name__
 
 
+def matches(value, hint):
+    """isinstance for hints that may be unions: `isinstance(x, typing.Union[A, B])` does SUBCLASS tests on type(x) and
+    never asks A / B's __instancecheck__; a runtime typechecker asks each member in turn."""
+    import types
+    import typing
+    if typing.get_origin(hint) in (typing.Union, types.UnionType):
+        return any(matches(value, m) for m in typing.get_args(hint))
+    return isinstance(value, hint)
+
+
 def norm_memo(m):
     """JSON emitted by TLC prints an empty function as []"""
     return {"single": dict(m["single"]) if m["single"] else {},
